@@ -846,7 +846,39 @@ pub fn wait_shape(s: &mut Src) -> Program {
     let r = Op::CellRead { c: 0 };
     let mut threads: Vec<Vec<Op>>;
     let mut join = s.chance(1, 2);
-    match s.pick(7) {
+    match s.pick(9) {
+        // the waiter is main (it reaches the wait before the notifier runs in loom's first schedule);
+        // the notifier publishes outside of / after its critical section, or never locks at all
+        7 | 8 => {
+            let probe = s.chance(1, 2);
+            let (wr, rd) = if probe { (Op::Store { a: 0, v: 1, o: MO::Rlx }, Op::Load { a: 0, o: MO::Rlx }) } else { (w.clone(), r.clone()) };
+            let pred = s.chance(1, 2);
+            let mut m = vec![Op::Spawn { t: 1 }, Op::Lock { m: 0 }];
+            m.push(if pred { Op::CvWaitWhileZero { cv: 0, m: 0 } } else { Op::CvWait { cv: 0, m: 0 } });
+            m.push(Op::Unlock { m: 0 });
+            m.push(rd);
+            let mut n: Vec<Op> = vec![];
+            let locked = pred || s.chance(1, 2);
+            match s.pick(3) {
+                0 => {
+                    n.push(wr.clone());
+                    if locked {
+                        n.extend([Op::Lock { m: 0 }, Op::Incr { m: 0 }, Op::Unlock { m: 0 }]);
+                    }
+                }
+                _ => {
+                    if locked {
+                        n.extend([Op::Lock { m: 0 }, Op::Incr { m: 0 }, Op::Unlock { m: 0 }]);
+                    }
+                    n.push(wr.clone());
+                }
+            }
+            n.push(if s.chance(1, 2) { Op::NotifyOne { cv: 0 } } else { Op::NotifyAll { cv: 0 } });
+            if s.chance(1, 2) {
+                m.push(Op::Join { t: 1 });
+            }
+            return Program { threads: vec![m, n], rx_owner: 0, arc_owner: vec![] };
+        }
         // condvar with predicate; notifier variants
         0 | 1 => {
             let nwait = s.range(1, 2);
